@@ -22,7 +22,7 @@ ASSUMPTIONS = ["inheritance graph acyclic apart from the self-loop the property 
                "missing section)", "documented rules from OPTIONS.md: child overrides parent transitively; unspecified -> default; CLI arena "
                "cache size overrides the file only if specified; const area in {Dram, OnChipFlash, OffChipFlash}, arena in {Sram, Dram}, cache "
                "== Sram, 0 <= size <= max address"]
-OUTSIDE = ["Dir/file.ini path lookup (closure inside main() over the file system)", "ConfigParser's own INI parsing", "inherit cycles of length >= 2"]
+OUTSIDE = ["the file system itself (os.access is answered by a symbolic Boolean)", "ConfigParser's own INI parsing", "inherit cycles of length >= 2"]
 BOUNDS = {"read_config": "<= 4 sections, all existence / inherit / definition patterns", "vela_config": "child+parent memory-mode sections, one system-config section"}
 K = 4
 
@@ -273,7 +273,92 @@ def cli_binding(V):
              V.except_finding(fid, True, default == "None"))]
 
 
-FUNCS = {"read_config": read_config, "vela_config": vela_config, "sections_missing": sections_missing, "cli_binding": cli_binding}
+class _Stop(Exception):
+    pass
+
+
+def main_cli(V, config, sysc, memm):
+    """the real vela.main() up to the construction of the architecture object (constructors replaced by recorders, file system access
+    answered by a symbolic Boolean): a configuration named Dir/file.ini is looked up in the bundled configuration directory and that
+    path is what the architecture object reads; an unreadable file is an error; a named system configuration / memory mode is never
+    silently replaced by the internal defaults."""
+    import os
+    import ethosu.vela.vela as vela
+    import ethosu.vela.architecture_features as af
+
+    argv = ["net.tflite"]
+    if config is not None:
+        argv += ["--config", config]
+    if sysc is not None:
+        argv += ["--system-config", sysc]
+    if memm is not None:
+        argv += ["--memory-mode", memm]
+    readable = V.bool("config_file_readable")
+    calls = []
+
+    def rec(name):
+        class Recorder(af.ArchitectureFeatures):  # keeps class attributes such as DEFAULT_CONFIG
+            def __init__(self, *a, **k):
+                calls.append((name, k))
+                raise _Stop()
+
+        return Recorder
+
+    class _OS:
+        path = os.path
+        R_OK = os.R_OK
+
+        @staticmethod
+        def access(path, mode):
+            calls.append(("access", path))
+            return readable
+
+        def __getattr__(self, n):
+            return getattr(os, n)
+
+    saved = (vela.os, vela.Imx93ArchitectureFeatures, vela.architecture_features.ArchitectureFeatures)
+    vela.os = _OS()
+    vela.Imx93ArchitectureFeatures = rec("imx93")
+    vela.architecture_features.ArchitectureFeatures = rec("generic")
+    err = None
+    try:
+        with core.shims((vela, {"print": lambda *a, **k: None})):
+            rc = vela.main(argv)
+            if rc:
+                err = "main() returned %r" % (rc,)  # VelaError caught inside main(): message printed, non-zero status
+    except _Stop:
+        pass
+    except vela.InputFileError as e:
+        err = e
+    except SystemExit as e:
+        err = e
+    finally:
+        vela.os, vela.Imx93ArchitectureFeatures = saved[0], saved[1]
+        vela.architecture_features.ArchitectureFeatures = saved[2]
+    ctor = [c for c in calls if c[0] in ("imx93", "generic")]
+    cfgn = os.path.normpath(config) if config is not None else None
+    # OPTIONS.md: "Dir/file.ini" names a file in the bundled configuration directory; files elsewhere are given by (absolute) path
+    bundled = config is not None and len(cfgn.split(os.path.sep)) == 2 and not cfgn.startswith((".", "~", os.path.sep))
+    cl = []
+    if config is not None and not bool(readable):
+        return [("an unreadable / missing configuration file is rejected", err is not None and not ctor)]
+    cl.append(("architecture object constructed without error", err is None and len(ctor) == 1))
+    if not ctor:
+        return cl
+    name, kw = ctor[0]
+    if config is None:
+        cl.append(("no configuration file handed over", kw.get("vela_config_files") is None))
+    else:
+        want = os.path.join(vela.CONFIG_FILES_PATH, os.path.normpath(config)) if bundled else os.path.normpath(config)
+        cl.append(("the architecture object reads the resolved path (Dir/file.ini -> bundled configuration directory)", [os.path.normpath(p_) for p_ in (kw.get("vela_config_files") or [])] == [want]))
+    want_sys = sysc if sysc is not None else af.ArchitectureFeatures.DEFAULT_CONFIG
+    want_mem = memm if memm is not None else af.ArchitectureFeatures.DEFAULT_CONFIG
+    cl.append(("the selected system configuration is passed on, never replaced", kw.get("system_config") == want_sys))
+    cl.append(("the selected memory mode is passed on, never replaced", kw.get("memory_mode") == want_mem))
+    return cl
+
+
+FUNCS = {"main_cli": main_cli, "read_config": read_config, "vela_config": vela_config, "sections_missing": sections_missing, "cli_binding": cli_binding}
 
 
 def instances(tier, seed):
@@ -289,4 +374,8 @@ def instances(tier, seed):
         for which in ("sys_missing", "mem_missing", "sys_default", "mem_default"):
             out.append(dict(key="sections_missing/%s/%s" % (accel, which), fn="sections_missing", params=dict(which=which, accel=accel)))
     out.append(dict(key="cli_binding", fn="cli_binding", params={}))
+    for config in (None, "Arm/vela.ini", "/abs/dir/my.ini", "../other/dir/my.ini", "my.ini"):
+        for sysc in (None, "Ethos_U65_High_End"):
+            for memm in (None, "Dedicated_Sram"):
+                out.append(dict(key="main_cli/%s/%s/%s" % (config, sysc, memm), fn="main_cli", params=dict(config=config, sysc=sysc, memm=memm)))
     return out
